@@ -1,7 +1,7 @@
 (** C06 — symbolic evaluation is sound substitution.  Property theorems only.
     Proved (model EvalAbs.eval_expr, tied to eval_abs.eval_expr by exact-output correspondence): for register-only states (no
     symbolic memory cell has been written), whose bindings map non-terminal identifiers to well-formed expressions of their width,
-    and for every expression of fragments 1-3 (C05: slices and the shifts << >> a>> included) whose identifiers conform to a name signature (width, is_reg, is_term):
+    and for every expression of fragments 1-4 (C05: slices, the shifts << >> a>>, == and parity included) whose identifiers conform to a name signature (width, is_reg, is_term):
     every result eval_expr returns is well formed, has the width of the argument, and — in EVERY concrete state rho, memory and
     operator interpretation — evaluates to the value of the argument in the state where each bound identifier takes the value of
     its binding in rho.  Terminal identifiers are never substituted; memory cells are read at the substituted address.
